@@ -483,7 +483,8 @@ def proxy_failure_closes_rule(ctx, rule):
                       'the failure handler returns the connection to the pool open: the next request for that host finds it "connected", '
                       'skips CONNECT and start_tls and is written to the proxy as it is - an https request with its credentials in clear text', ap.loc(h))
     if n == 0:
-        raise AnalysisError('acquire_proxy: no failure handler that gives the connection back (C12-D8 c)')
+        # nothing gives the connection back on failure (C12's matter): it is then never handed out again either
+        ck.ok(rule, ap.qual, 'no failure handler returns a connection to the pool (nothing half set-up can be reused)')
 
 
 def sql_boolop_lint(ctx, rule, modules=('wpull.database.sqlmodel', 'wpull.database.sqltable')):
